@@ -170,6 +170,11 @@ class QueryPlanner:
                 return SubSelectStep(select, self.cte_results[table_name], table_name=table_name)
 
         fetch_df_select = copy.deepcopy(select)
+
+        # CTEs are planned on their own (plan_cte): only the definitions this query still refers to go with it
+        if fetch_df_select.cte is not None:
+            fetch_df_select.cte = self.get_used_ctes(fetch_df_select) or None
+
         self.prepare_integration_select(integration_name, fetch_df_select)
 
         # remove predictor params
@@ -177,6 +182,36 @@ class QueryPlanner:
             fetch_df_select.using = None
 
         return FetchDataframeStep(integration=integration_name, query=fetch_df_select)
+
+    def get_used_ctes(self, select):
+        # CTE definitions of the select that are referenced (by bare name) from its body or from a used CTE
+
+        def table_names(node):
+            names = set()
+
+            def find_names(node, is_table, **kwargs):
+                if is_table and isinstance(node, Identifier) and len(node.parts) == 1:
+                    names.add(node.parts[0])
+
+            query_traversal(node, find_names)
+            return names
+
+        ctes, select.cte = select.cte, None
+        try:
+            names = table_names(select)
+        finally:
+            select.cte = ctes
+
+        used = set()
+        found = True
+        while found:
+            found = False
+            for i, cte in enumerate(ctes):
+                if i not in used and cte.name.parts[-1] in names:
+                    used.add(i)
+                    names |= table_names(cte.query)
+                    found = True
+        return [cte for i, cte in enumerate(ctes) if i in used]
 
     def plan_integration_select(self, select):
         """Plan for a select query that can be fully executed in an integration"""
